@@ -30,6 +30,34 @@ MUTANTS = [
 	 "ref_chunk = refs[idx]", ["ref_chunk = refs[idx]", "if ref_indices is not None and len(ref_chunk) > 2:", "\tref_chunk = ref_chunk[list(range(len(ref_chunk)))[::-1]]"]),
 	('c05-condensed-offset-drift', 'C05', 'src/gambit/metric.py',
 	 "next_out += ncol", ["next_out += ncol if i != 2 else ncol - 1"]),
+	('c08-gz-stripped-after-fasta-suffix', 'C08', 'src/gambit/cli/common.py',
+	 "filename = strip_extensions(filename, GZIP_EXTENSIONS)", ["filename = strip_extensions(filename, FASTA_EXTENSIONS)"]),
+	('c08-gz-stripped-after-fasta-suffix', 'C08', 'src/gambit/cli/common.py',
+	 "filename = strip_extensions(filename, FASTA_EXTENSIONS)", ["filename = strip_extensions(filename, GZIP_EXTENSIONS)"]),
+	('c08-labels-sorted', 'C08', 'src/gambit/cli/common.py',
+	 "ids = [get_file_id(f, strip_dir, strip_ext) for f in paths_str]", ["ids = sorted(get_file_id(f, strip_dir, strip_ext) for f in paths_str)"]),
+	('c08-chunk-boundary-slip', 'C08', 'src/gambit/metric.py',
+	 "jaccarddist_array(query, ref_chunk, out=out[i, ref_slice])", ["jaccarddist_array(query, ref_chunk, out=out[i, ref_slice.start:ref_slice.start + len(ref_chunk)][::-1] if len(ref_chunk) == 3 else out[i, ref_slice])"]),
+	('c09-unstable-sort', 'C09', 'src/gambit/query.py',
+	 "closest = [GenomeMatch(db.genomes[i], dists[i]) for i in np.argsort(dists, kind='stable')[:params.report_closest]]",
+	 ["closest = [GenomeMatch(db.genomes[i], dists[i]) for i in np.argsort(dists)[:params.report_closest]]"]),
+	('c09-sort-descending-ties', 'C09', 'src/gambit/query.py',
+	 "closest = [GenomeMatch(db.genomes[i], dists[i]) for i in np.argsort(dists, kind='stable')[:params.report_closest]]",
+	 ["closest = [GenomeMatch(db.genomes[i], dists[i]) for i in (len(dists) - 1 - np.argsort(dists[::-1], kind='stable'))[:params.report_closest]]"]),
+	('c16-header-sorted', 'C16', 'src/gambit/cli/dist.py',
+	 "dump_dmat_csv(output, dmat, query_ids, ref_ids)  # TODO different output formats", ["dump_dmat_csv(output, dmat, query_ids, sorted(map(str, ref_ids)))"]),
+	('c16-reference-files-in-completion-order', 'C16', 'src/gambit/sigs/calc.py',
+	 "sigs[i] = future.result()", ["sigs[len(files) - 1 - i if len(files) == 3 else i] = future.result()"]),
+	('c17-child-height-dropped', 'C17', 'src/gambit/cluster.py',
+	 "right.branch_length = height - (0 if right_i < nleaves else link[right_i - nleaves, 2])", ["right.branch_length = height"]),
+	('c17-labels-sorted', 'C17', 'src/gambit/cli/tree.py',
+	 "tree = linkage_to_bio_tree(link, labels)", ["tree = linkage_to_bio_tree(link, sorted(map(str, labels)))"]),
+	('c20-negative-index-in-place', 'C20', 'src/gambit/util/indexing.py',
+	 "index = index.astype(np.intp)", ["index = index.astype(np.intp, copy=False)"]),
+	('c20-slice-bounds-not-rebased', 'C20', 'src/gambit/sigs/base.py',
+	 "bounds = self.bounds[start:(stop + 1)] - self.bounds[start]", ["bounds = self.bounds[start:(stop + 1)] - self.bounds[max(start - 1, 0)]"]),
+	('c20-delitem-noop-on-last', 'C20', 'src/gambit/sigs/base.py',
+	 "del self._list[i]", ["if i != len(self._list) - 1:", "\tdel self._list[i]", "else:", "\tself._list.pop()", "\tself._list[:] = self._list[:]"]),
 	('c19-flush-after-presize', 'C19', 'src/gambit/sigs/hdf5.py',
 	 "values = group.create_dataset('values', shape=int(bounds[-1]), dtype=signatures.dtype, **values_kw)",
 	 ["values = group.create_dataset('values', shape=int(bounds[-1]), dtype=signatures.dtype, **values_kw)", "group.file.flush()"]),
